@@ -18,6 +18,7 @@ static int y_first (int n) { return (65536 - (n_yfrac (n) - 1) * step_y (n)) / 2
 static int step_x (int n) { return 65536 / n_xfrac (n); }
 static int x_first (int n) { return (65536 - (n_xfrac (n) - 1) * step_x (n)) / 2; }
 
+static int BAND = 1;        /* half-width, in 1/65536 pixel, of the band around a sample position inside which the edge side is not judged */
 /* sign of (edge x at row y) - s for the line p1->p2, exact */
 static int edge_cmp (const pixman_line_fixed_t *l, int64_t y, int64_t s, int64_t *approx_x)
 {
@@ -44,8 +45,8 @@ static void ref_coverage (const pixman_trapezoid_t *t, int n, int px, int py, in
         for (int j = 0; j < n_xfrac (n); j++) {
             int64_t s = (int64_t)px * 65536 + x_first (n) + (int64_t)j * step_x (n) - (int64_t)xo * 65536;
             /* definitely inside: left edge < s-2 and right edge > s+2 ; definitely outside: left > s+2 or right < s-2 */
-            int in_sure = edge_cmp (&t->left, ye, s - 2, NULL) < 0 && edge_cmp (&t->right, ye, s + 2, NULL) > 0;
-            int out_sure = edge_cmp (&t->left, ye, s + 2, NULL) > 0 || edge_cmp (&t->right, ye, s - 2, NULL) < 0;
+            int in_sure = edge_cmp (&t->left, ye, s - BAND, NULL) < 0 && edge_cmp (&t->right, ye, s + BAND, NULL) > 0;
+            int out_sure = edge_cmp (&t->left, ye, s + BAND, NULL) > 0 || edge_cmp (&t->right, ye, s - BAND, NULL) < 0;
             if (in_sure) { l++; h++; } else if (!out_sure) h++;
         }
     }
@@ -88,6 +89,18 @@ static void gen_trap (vf_rng *r, pixman_trapezoid_t *t, int w, int h, int hostil
     t->right.p1.x = t->left.p1.x + wd1; t->right.p2.x = t->left.p2.x + wd2;
     if (k == 5) { t->left.p1.x &= ~0xffff; t->left.p2.x = t->left.p1.x; t->right.p1.x = (t->right.p1.x & ~0xffff) + 65536; t->right.p2.x = t->right.p1.x; }  /* pixel-aligned box */
     if (k == 6) { t->right.p1.x = t->left.p1.x + fxr (r, 20, 160); t->right.p2.x = t->left.p2.x + (t->right.p1.x - t->left.p1.x); }      /* parallel band, possibly very slanted */
+    if (k == 7 || k == 8) {
+        /* an edge of (nearly) integer slope that starts within a few 1/65536 of a sample position: the error term of the edge walker
+         * stays below one step for many rows, and the abscissa sits on or next to a sample - the slopes for which a one-ulp error shows */
+        static const int depths[] = { 8, 8, 4, 1 }; int n = depths[vf_next (r) % 4];
+        pixman_line_fixed_t *e = k == 7 ? &t->left : &t->right;
+        int px = (int)vf_range (r, 0, w > 1 ? w - 1 : 0), j = (int)(vf_next (r) % (unsigned)n_xfrac (n));
+        static const int slopes[] = { 0, 0, 0, 1, -1, 2, -2, 0 }; int m = slopes[vf_next (r) % 8];
+        e->p1.x = (pixman_fixed_t)(px * 65536 + x_first (n) + j * step_x (n) + vf_range (r, -3, 3));
+        e->p2.x = (pixman_fixed_t)((int64_t)e->p1.x + (int64_t)m * ((int64_t)e->p2.y - e->p1.y) + vf_range (r, -40, 40));
+        if (k == 7) { t->right.p1.x = e->p1.x + wd1 + 70000; t->right.p2.x = e->p2.x + wd2 + 70000; }
+        else { t->left.p1.x = e->p1.x - wd1 - 70000; t->left.p2.x = e->p2.x - wd2 - 70000; }
+    }
     if (t->left.p1.y == t->left.p2.y) t->left.p2.y++;
     if (t->right.p1.y == t->right.p2.y) t->right.p2.y++;
 }
@@ -251,7 +264,7 @@ static void meta_case (vf_rng *r)
                 for (int k = 0; k < n_yfrac (n); k++) { int64_t yy = (int64_t)y * 65536 + y_first (n) + (int64_t)k * step_y (n);
                     if (!(t.top <= yy && yy < t.bottom)) continue;
                     for (int j = 0; j < n_xfrac (n); j++) { int64_t sx = (int64_t)x * 65536 + x_first (n) + (int64_t)j * step_x (n);
-                        if (edge_cmp (&mode4_line, yy, sx - 2, NULL) >= 0 && edge_cmp (&mode4_line, yy, sx + 2, NULL) <= 0) amb++; } }
+                        if (edge_cmp (&mode4_line, yy, sx - BAND, NULL) >= 0 && edge_cmp (&mode4_line, yy, sx + BAND, NULL) <= 0) amb++; } }
                 int dv = va > vb ? va - vb : vb - va;
                 if (dv > amb) { explained = 0; fx = x; fy = y; break; }
             }
@@ -387,4 +400,5 @@ static void trap_case (long idx, vf_rng *r)
     if (idx < 2) vf_sample ("case %ld: 10 shapes over {sample-count oracle on a1/a4/a8, abutting splits, whole-pixel offsets, triangle decomposition, composite_trapezoids/triangles vs mask route, add_trapezoids}", idx);
 }
 
-int main (int argc, char **argv) { return vf_main (argc, argv, "C12", NULL, trap_case, NULL); }
+static void init (void) { const char *b = getenv ("VF_TRAP_BAND"); if (b) BAND = atoi (b); }     /* development knob; registered runs use the default */
+int main (int argc, char **argv) { return vf_main (argc, argv, "C12", init, trap_case, NULL); }
